@@ -115,6 +115,42 @@ func malformedSuites() []string {
 	return out
 }
 
+// tokenGrid writes each token of the naming scheme in many notations inside otherwise valid strings.
+func tokenGrid() []string {
+	nums := []string{"1", "01", "001", "2", "30", "59", "60", "048", "1.5", ".5", "1.", "1.0", "1e1", "1E1", "+1", "-1", "1_0", "0x1", "0X1F", "0b1", "0o1", "\uff11", "", "1 ", " 1", "99999999999999999999", "1,5", "1/2"}
+	units := []string{"S", "M", "H", "", "MS", "US", "NS", "\u00b5S", "D", "W", "Y", "SS", "HM", "MIN", "SEC", "s", "m", "h", "ms"}
+	var toks []string
+	for _, n := range nums {
+		for _, u := range units {
+			toks = append(toks, "T"+n+u)
+		}
+	}
+	toks = append(toks, "T1H30M", "T1M30S", "T1H1M1S", "T1S1S", "T1H-30M", "T30M1H", "T1M 30S", "T1HM", "T1.5H30M", "TT1M", "T1MT1M")
+	var out []string
+	for _, t := range toks {
+		out = append(out, "OCRA-1:HOTP-SHA1-6:QN08-"+t, "OCRA-1:HOTP-SHA512-8:C-QA10-PSHA1-S064-"+t)
+	}
+	for _, d := range []string{"6", "06", "006", "+6", "-6", "6.0", "6.", "0x6", "6 ", " 6", "\uff16", "1e1", "10", "010", "0x0A", "6_", "1_0", "٦"} {
+		out = append(out, "OCRA-1:HOTP-SHA1-"+d+":QN08", "OCRA-1:HOTP-SHA256-"+d+":C-QH10-T1M")
+	}
+	for _, q := range []string{"QN08", "QN8", "QN008", "QN+8", "QN10", "QN010", "QN0x8", "QN08.0", "QN 8", "Q N08", "QN1e1", "QN-8", "QA08", "QH10", "QB08", "QN09", "QN16", "QN64", "QNN08", "Q08", "QN08QN08"} {
+		out = append(out, "OCRA-1:HOTP-SHA1-6:"+q, "OCRA-1:HOTP-SHA1-6:C-"+q+"-T1M")
+	}
+	for _, p := range []string{"PSHA1", "PSHA01", "PSHA-1", "PSHA256", "PSHA0256", "PSHA+1", "PSHA1.0", "PSHA512/256", "PSHA224", "PSHA384", "PSHA3", "PSHA2", "PSHA5", "PSHA", "PSHA1 ", "PSHA1PSHA1", "PMD5", "PSHA512256"} {
+		out = append(out, "OCRA-1:HOTP-SHA1-6:QN08-"+p, "OCRA-1:HOTP-SHA1-6:C-QN08-"+p+"-S064-T1M")
+	}
+	for _, x := range []string{"S", "S064", "S64", "S0064", "S+64", "S06.4", "S0x4", "S-64", "S\uff16\uff140", "S000", "S999", "S128", "S512", "S1e2", "S 64", "S064S064", "SS", "S06A"} {
+		out = append(out, "OCRA-1:HOTP-SHA1-6:QN08-"+x, "OCRA-1:HOTP-SHA1-6:QN08-"+x+"-T1M")
+	}
+	for _, h := range []string{"SHA1", "SHA01", "SHA-1", "SHA256", "SHA512", "SHA224", "SHA384", "SHA3", "SHA2", "SHA5", "SHA512/256", "SHA1 ", "sha1", "Sha256", "SHA1.0", "SHA+1", "SHA0x1"} {
+		out = append(out, "OCRA-1:HOTP-"+h+"-6:QN08")
+	}
+	for _, v := range []string{"OCRA-1", "OCRA-01", "OCRA-1.0", "OCRA-+1", "OCRA-1 ", "OCRA-0x1", "OCRA-\uff11", "ocra-1", "Ocra-1", "OCRA-1e0", "OCRA-2", "OCRA--1"} {
+		out = append(out, v+":HOTP-SHA1-6:QN08")
+	}
+	return out
+}
+
 func c15(r *ev.Run) {
 	r.Scenario("suite-fidelity", func(raw []byte) (string, string) { return suiteFidelity(unjson[c15Case](raw)) })
 	r.Scenario("concurrent-parse", func(raw []byte) (string, string) {
@@ -272,6 +308,20 @@ func c15(r *ev.Run) {
 		}
 		r.DistinctS("malformed:" + m)
 	}
+	// (4) token grid: every token slot of the scheme written in many number / unit notations (leading zeros, signs,
+	// fractions, exponents, other bases, separators, compound and foreign units); judged by the independent parser:
+	// whatever is accepted must be inside the scheme and mean what it says
+	var tg int64
+	for _, name := range tokenGrid() {
+		c := c15Case{name, "grammar"}
+		obs, bad := suiteFidelity(c)
+		tg++
+		if bad != "" {
+			r.Fail("suite-fidelity", "token-grid "+name+": "+bad, c, bad, obs)
+		}
+	}
+	r.Eval(tg)
+	r.Set("token_grid_strings", tg)
 	r.Eval(n1)
 	r.Set("malformed_verdicts", verdicts)
 	r.Sample(map[string]any{"case": c15Case{"OCRA-1:HOTP-SHA256-8:C-QA10-PSHA256-S-T1", "registered"}, "ref": shapeOfRef(func() ref.OCRASuite { s, _ := ref.ParseSuite("OCRA-1:HOTP-SHA256-8:C-QA10-PSHA256-S-T1"); return s }())})
